@@ -31,7 +31,7 @@ RULE = ("cases = (parents with inner collections of different lengths incl. empt
         "of parent and/or flattened element, optional condition on element / parent / both / a third variable) drawn by "
         "Hypothesis; rows are compared as multisets with the nested comprehension. Non-trivial = >= 2 parents with different "
         "non-empty inners; distinct = canonical JSON.")
-BUDGET = {"quick": (4, 400), "thorough": (16, 4000)}
+BUDGET = {"quick": (8, 500), "thorough": (16, 4000)}
 ASSUMPTIONS = ["the flattened expression is built once and that same object is used in the selection and in the conditions"]
 
 
@@ -76,7 +76,7 @@ def _case(draw, tier):
     def cond_on_p():
         return leaf(draw, ctx, [0])
 
-    kind = draw(st.sampled_from(["none", "none", "on_e", "on_e", "on_p", "both", "or", "or", "not_and"]
+    kind = draw(st.sampled_from(["none", "none", "on_e", "on_e", "on_p", "both", "or", "or", "not_and", "or_and", "or_and"]
                                 + (["third"] * 6 if third else [])))
     if kind == "none":
         cond = None
@@ -91,6 +91,12 @@ def _case(draw, tier):
         parts = draw(st.sampled_from([[cond_on_p(), cond_on_e()], [cond_on_e(), cond_on_p()], [cond_on_e(), cond_on_e()]]))
         cond = ["or", draw(st.sampled_from(["nary", "binl"])), parts] if kind == "or" else \
             ["not", "not_", ["and", "nary", parts]]
+    elif kind == "or_and":
+        # a disjunction one operand of which is a conjunction of conditions on the element (several elements of one parent
+        # fail it before one satisfies the other operand)
+        conj = ["and", draw(st.sampled_from(["nary", "binl"])), [cond_on_e(), draw(st.sampled_from([cond_on_e(), cond_on_e(), cond_on_p()]))]]
+        other = cond_on_e()
+        cond = ["or", draw(st.sampled_from(["nary", "binl"])), [conj, other] if chance(draw, 2, 3) else [other, conj]]
     else:
         if ent_elem:
             j = draw(st.sampled_from([["cmp", "==", E, ["var", 2]], ["cmp", "!=", E, ["var", 2]],
@@ -98,11 +104,18 @@ def _case(draw, tier):
         else:
             j = ["cmp", draw(st.sampled_from(CMP_OPS)), E, ["attr", ["var", 2], "s" if inner == "s" else "a"]]
         cond = j
+    if kind == "or_and" and inner in ("tags", "kids"):
+        # longer inner collections: several elements of one parent fail the conjunction before one satisfies the other side
+        for i in parents:
+            while len(recs[i][inner]) < 3:
+                recs[i][inner] = recs[i][inner] + [draw(st.sampled_from(P["ints"])) if inner == "tags" else draw(st.integers(0, n - 1))]
     if third and kind != "third":
         doms.pop()
         vars_.pop()
     sel = draw(st.sampled_from(["entity_e", "e", "p_e", "e_p", "entity_e", "e", "p_e", "e_p"]
-                               + (["p_only", "e_attr"] if inner == "kids" and kind not in ("none", "on_p") else [])))
+                               + (["p_only", "e_attr"] if inner == "kids" and kind not in ("none", "on_p") else [])
+                               + (["p_only", "p_only"] if inner in ("tags", "a") and kind not in ("none", "on_p") else [])
+                               + (["p_only"] * 6 if kind == "or_and" and inner in ("tags", "kids") else [])))
     return {"ents": recs, "doms": doms, "vars": vars_, "inner": inner, "cond": cond, "cond_kind": kind, "select": sel,
             "dom_kind": "list", "split_top": draw(st.booleans())}
 
@@ -182,7 +195,7 @@ def check(case) -> Outcome:
     if len(set(flat_ids)) < len(flat_ids):
         classes.append("overlapping_inners")
     feats = list(classes)
-    if sel == "p_only" and case["cond_kind"] in ("or", "not_and") and any(not i for i in inners):
+    if sel == "p_only" and case["cond_kind"] in ("or", "not_and", "or_and") and any(not i for i in inners):
         feats.append("parent_only_disjunction_with_empty_inner")
     try:
         q, extract = build(case, objs)
